@@ -1196,6 +1196,15 @@ func (pc *PeerConnection) SetRemoteDescription(desc SessionDescription) error {
 		return err
 	}
 
+	// Refuse a description that cannot be applied before any state is changed:
+	// failing on it below would leave the new signaling state and the pending
+	// description behind a call that returned an error.
+	if desc.Type != SDPTypeRollback {
+		if err := pc.validateRemoteDescription(&desc); err != nil {
+			return err
+		}
+	}
+
 	if err := pc.setDescription(&desc, stateChangeOpSetRemote); err != nil {
 		return err
 	}
@@ -2093,6 +2102,27 @@ func (pc *PeerConnection) undeclaredRTCPMediaProcessor() {
 		pc.log.Warnf("Incoming unhandled RTCP ssrc(%d), OnTrack will not be fired", ssrc)
 		unhandledStreams = append(unhandledStreams, stream)
 	}
+}
+
+// validateRemoteDescription performs the checks of SetRemoteDescription that
+// depend on the description only.
+func (pc *PeerConnection) validateRemoteDescription(desc *SessionDescription) error {
+	detectedPlanB := descriptionIsPlanB(desc, pc.log)
+	if pc.configuration.SDPSemantics != SDPSemanticsUnifiedPlan {
+		detectedPlanB = descriptionPossiblyPlanB(desc)
+	}
+
+	if desc.Type != SDPTypeAnswer && !detectedPlanB {
+		for _, media := range desc.parsed.MediaDescriptions {
+			if getMidValue(media) == "" {
+				return errPeerConnRemoteDescriptionWithoutMidValue
+			}
+		}
+	}
+
+	_, err := extractICEDetails(desc.parsed, pc.log)
+
+	return err
 }
 
 // RemoteDescription returns pendingRemoteDescription if it is not null and
